@@ -12,7 +12,7 @@ import (
 func init() {
 	register("C13", &ruleSet{
 		run:    runC13,
-		floors: map[string]int{"O1": 5, "O2": 2, "O3": 1},
+		floors: map[string]int{"O1": 4, "O2": 2, "O3": 1},
 		explain: "Decides the existence and ordering of the give-up mechanisms (instants are not applicable to a static argument): (O1) every blocking select in " +
 			"the limiter package has a wake-up/hand-off case, a ctx.Done() case (unconditional in the cond-var wait, conditional only on the configured eviction flag " +
 			"in the queue limiter) and a timer case armed from the configured bound whenever that bound is positive (a select without a timer is reachable only when " +
